@@ -208,3 +208,112 @@ Proof.
   intros b [i j r]. open_code. cbn [inner_value]. unfold value. cbn [wi bj].
   rewrite land_ones16_Z, wrap_wrap by lia. rewrite Z.shiftl_mul_pow2 by lia. do 2 f_equal. lia.
 Qed.
+
+(* ================================================================== search (roaring_bitmap.go): the bisection loop *)
+Ltac Zify.zify_post_hook ::= Z.div_mod_to_equations.
+
+(* slices are shorter than 2^63 elements (Go's int): uint(low+high) does not wrap *)
+Definition len_ok (v : list N) : Prop := (lenN v < 2 ^ 63)%N.
+
+(* one iteration of the generated loop, for a given order of (low, high) in the state tuple *)
+Ltac search_iter :=
+  let low := fresh "low" in let high := fresh "high" in let Hl := fresh in let Hh := fresh in
+  intros low high Hl Hh; cbv beta iota zeta delta [iter1 bind];
+  rewrite ?mid_Z by (unfold len_ok in *; lia);
+  assert ((N.shiftr (low + high) 1 < high \/ high <= low) /\ low <= N.shiftr (low + high) 1)%N
+    by (rewrite N.shiftr_div_pow2; change (2 ^ 1)%N with 2%N; lia);
+  go; repeat (break1; go); finish.
+Ltac search_shape pk v x :=
+  match goal with |- context [while ?f ?c ?b ?p ?s] =>
+    let E := fresh "E" in
+    assert (E : while f c b p s =
+                Ret (inl (pk (search_loop f (skipN v 0%N) x 0%N (lenN v)) (search_loop f (skipN v 0%N) x 0%N (lenN v)))));
+    [ refine (search_while pk c b p v x _ f 0%N (lenN v) _ _ _); [ search_iter | lia | lia | rewrite lenN_length; lia ]
+    | rewrite E ]
+  end.
+
+(* for EVERY fuel above the length: the generated search is the model's loop run with that fuel ... *)
+Theorem code_search_fuel : forall fuel v x, len_ok v -> (length v < fuel)%nat ->
+  g_search fuel (zl v) (Z.of_N x) = Ret (Z.of_N (search_loop fuel v x 0 (lenN v))).
+Proof.
+  intros fuel v x Hv Hf. cbv beta zeta delta [g_search]. rewrite zlen_zl.
+  replace (Z.of_nat (length v)) with (Z.of_N (lenN v)) by (rewrite lenN_length; lia).
+  first [ search_shape (fun l h : N => (Z.of_N l, Z.of_N h)) v x | search_shape (fun l h : N => (Z.of_N h, Z.of_N l)) v x ];
+  cbv beta iota zeta delta [bind]; rewrite skipN_0; reflexivity.
+Qed.
+(* ... which is the model's search (its own fuel is length + 1) *)
+Theorem code_search : forall fuel v x, len_ok v -> (length v < fuel)%nat ->
+  g_search fuel (zl v) (Z.of_N x) = Ret (Z.of_N (search v (lenN v) x)).
+Proof.
+  intros fuel v x Hv Hf. rewrite code_search_fuel by assumption. unfold search.
+  rewrite (search_loop_fuel x fuel (S (length v))) by (rewrite lenN_length; lia). reflexivity.
+Qed.
+
+(* from here on the generated search stays folded: it is rewritten by code_search *)
+Local Opaque g_search.
+
+(* ================================================================== arrayContainer: Contains, Remove *)
+Ltac array_go := rewrite ?zlen_zl_N; repeat first [ rewrite m_slice_zl_to | rewrite m_slice_zl_from | progress go ].
+Ltac array_crush :=
+  intros; open_code; rewrite ?code_search by assumption; cbv beta iota zeta delta [bind]; open_model; open_code;
+  rewrite ?delete_at_eq; array_go; repeat (break1; cbn [andb orb negb fst snd]; array_go); finish.
+
+Theorem code_arrayContainer_Contains : forall fuel v x, len_ok v -> (length v < fuel)%nat ->
+  g_arrayContainer_Contains fuel (of_arr v) (Z.of_N x) = Ret (a_contains v x).
+Proof. array_crush. Qed.
+
+Theorem code_arrayContainer_Remove : forall fuel v x, len_ok v -> (length v < fuel)%nat ->
+  g_arrayContainer_Remove fuel (of_arr v) (Z.of_N x) = Ret (of_arr (fst (a_remove v x)), snd (a_remove v x)).
+Proof. array_crush. Qed.
+
+(* ================================================================== bitmapContainer.setZero: every word of the container is cleared *)
+Ltac dec_Z :=
+  repeat match goal with
+  | |- context [(?a <=? ?b)] =>
+      first [ replace (a <=? b) with true by (symmetry; apply Z.leb_le; lia)
+            | replace (a <=? b) with false by (symmetry; apply Z.leb_gt; lia) ]
+  | |- context [(?a <? ?b)] =>
+      first [ replace (a <? b) with true by (symmetry; apply Z.ltb_lt; lia)
+            | replace (a <? b) with false by (symmetry; apply Z.ltb_ge; lia) ]
+  end; cbn [andb orb negb].
+Ltac open_iter := cbv beta iota zeta delta [iter1]; open_code.
+
+(* one round of the generated loop clears the next [step] words (whatever the order of the state tuple: pk) *)
+Ltac setzero_round step :=
+  let ws := fresh "ws" in let i := fresh "i" in let H1 := fresh in let H2 := fresh in
+  intros ws i H1 H2; open_iter; dec_Z; cbv beta iota zeta delta [bind];
+  pose proof (cleared_refl i ws);
+  repeat match goal with Hc : cleared ?a ?k ws ?cur |- context [m_set (zl ?cur) ?z 0] =>
+    let cur' := fresh "cur" in let E := fresh "E" in let Hc' := fresh "Hc" in
+    destruct (clear_one ws a k cur z Hc ltac:(lia) ltac:(lia)) as (cur' & E & Hc'); rewrite E; clear E Hc;
+    cbv beta iota zeta delta [bind]
+  end;
+  match goal with |- context [Z.of_nat i + ?k] => replace (Z.of_nat i + k) with (Z.of_nat (i + step)) by lia end;
+  eexists; split; [reflexivity|];
+  match goal with Hc : cleared _ ?k _ _ |- cleared _ ?k' _ _ => replace k' with k by lia; exact Hc end.
+Ltac setzero_end :=
+  let ws := fresh "ws" in let i := fresh "i" in let H1 := fresh in
+  intros ws i H1; open_iter; dec_Z; reflexivity.
+Ltac setzero_shape pk rounds step w :=
+  match goal with |- context [while ?f ?c ?b ?p ?s] =>
+    let Hgo := fresh "Hgo" in let Hend := fresh "Hend" in let E := fresh "E" in let C := fresh "C" in let ws' := fresh "ws'" in
+    assert (Hgo : forall ws i, (i < rounds * step)%nat -> (i + step <= length ws)%nat ->
+              exists ws1, iter1 c b p (pk ws i) = Ret (inl (pk ws1 (i + step)%nat)) /\ cleared i (i + step) ws ws1)
+      by (setzero_round step);
+    assert (Hend : forall ws i, (rounds * step <= i)%nat -> iter1 c b p (pk ws i) = Ret (inr (inl (pk ws i))))
+      by setzero_end;
+    destruct (zero_while pk c b p rounds step ltac:(lia) Hgo Hend rounds 0%nat f w ltac:(lia) ltac:(lia) ltac:(lia)) as (ws' & E & C);
+    match type of E with _ = ?rhs => replace (while f c b p s) with rhs by (symmetry; exact E) end; clear Hgo Hend E
+  end.
+
+(* setZero clears all bmp_words words in 32 rounds of 32 writes: fuel 33 is enough *)
+Theorem code_setZero : forall fuel b, length (words b) = N.to_nat bmp_words -> (32 < fuel)%nat ->
+  g_bitmapContainer_setZero fuel (of_bits b) = Ret (of_bits {| words := repeat 0%N (N.to_nat bmp_words); cached := cached b |}).
+Proof.
+  intros fuel [w c] Hlen Hf. cbn [words cached] in *. change (N.to_nat bmp_words) with 1024%nat in *.
+  open_code.   (* one call-by-value pass: unfolding the 32 shadowing lets without the Record projections would double the term 32 times *)
+  first [ setzero_shape (fun (ws : list N) (i : nat) => (mkBits c (mkBitmap (zl ws)), Z.of_nat i)) 32%nat 32%nat w
+        | setzero_shape (fun (ws : list N) (i : nat) => (Z.of_nat i, mkBits c (mkBitmap (zl ws)))) 32%nat 32%nat w ].
+  cbv beta iota zeta delta [bind]. change (32 * 32)%nat with 1024%nat in C. rewrite <- Hlen in C. change (0 * 32)%nat with 0%nat in C.
+  apply cleared_all in C. rewrite C, Hlen. reflexivity.
+Qed.
